@@ -75,7 +75,15 @@ func c05Gen(tp *Tapes) *c05Spec {
 		var ops []c05Op
 		for i := 0; i < n; i++ {
 			op := c05Op{Ctx: g.Draw(np), Entry: g.Draw(5)}
-			switch g.Draw(9) {
+			switch g.Draw(10) {
+			case 9:
+				// housekeeping while others execute and fetch: CleanCache(), then execute the shared
+				// template (which stays valid). Only where options live on the set: a re-cached object
+				// would otherwise have to be configured by whoever gets it first.
+				op.Kind = "clean-exec"
+				if sp.Prog.OptsOnTemplate {
+					op.Kind = "exec"
+				}
 			case 8:
 				op.Kind = "cache-missing" // FromCache of a name no loader has: must fail, and must not wedge the set
 			case 5:
@@ -144,6 +152,12 @@ func c05DoOp(w *World, sp *c05Spec, set *pongo2.TemplateSet, shared *pongo2.Temp
 	tpl := shared
 	var err error
 	switch op.Kind {
+	case "clean-exec":
+		if op.Ctx%2 == 0 {
+			set.CleanCache()
+		} else {
+			set.CleanCache(sp.Prog.Main, "inc0.tpl")
+		}
 	case "cache-missing":
 		tpl, err = set.FromCache("nope-not-there.tpl")
 	case "cache-exec":
